@@ -215,6 +215,11 @@ func runC14(s *spec.Spec, logPath string) {
 			probesC["bad_key_queries"]++
 		case st.Forgot != 0:
 			c.forgotLabel(st.Forgot)
+		case st.Flood != nil:
+			c.flood(st.Flood)
+			if i < len(s.History)-1 {
+				continue
+			}
 		case st.Fix != nil:
 			c.applyFix(st.Fix.Names, st.Fix.Data)
 		case len(st.Acts) > 0:
@@ -231,6 +236,42 @@ func runC14(s *spec.Spec, logPath string) {
 	}
 	c.out.RunMs = time.Since(t0).Milliseconds()
 	c.finish()
+}
+
+// flood is the volume fault: by-day queries of many distinct days, one after the other, each compared with the model.
+// Whatever the library keeps per queried day (memo, index, generation of a cache) is pushed past its capacity; the
+// fix-ups and checks that follow must still see the table as the model has it.
+func (c *c14) flood(f *spec.DayFlood) {
+	setCall(fmt.Sprintf("flood of %d by-day queries from %s", f.Count, f.From))
+	defer setCall("")
+	c.resolved = append(c.resolved, fmt.Sprintf("flood(%s,%d,%d)", f.From, f.Count, f.Stride))
+	t := dayTime(f.From)
+	for i := 0; i < f.Count; i++ {
+		ds := t.Format("2006-01-02")
+		want := "nil"
+		if r, ok := c.m.recs[ds]; ok {
+			want = c.m.render(r)
+		}
+		var got, api string
+		switch i % 3 {
+		case 0:
+			got, api = renderH(HolidayUtil.GetHolidayByYmd(t.Year(), int(t.Month()), t.Day())), "GetHolidayByYmd"
+		case 1:
+			got, api = renderH(HolidayUtil.GetHoliday(ds)), "GetHoliday"
+		default:
+			got, api = renderH(HolidayUtil.GetHoliday(undash(ds))), "GetHoliday(\"YYYYMMDD\")"
+		}
+		c.checks++
+		if got != want {
+			c.fail("VIEW_MISMATCH", "by_day", map[string]string{"day": ds, "api": api, "expected": want, "got": got, "during": fmt.Sprintf("flood query %d of %d", i+1, f.Count)})
+		}
+		t = t.AddDate(0, 0, f.Stride)
+	}
+	probesC["flood_steps"]++
+	probesC["flood_queries"] += uint64(f.Count)
+	if f.Count > 16384 {
+		probesC["flood_over_16384_distinct_days"]++
+	}
 }
 
 // build initialises the model black-box from the by-day view and checks it
